@@ -254,3 +254,11 @@ def neighbour_compositions(draw, min_len=101, max_len=320, cheap=True):
         if p >= 0 and m >= 0 and z >= 0 and (p, m, z) not in comps:
             comps.append((p, m, z))
     return [list(c) for c in comps]
+
+
+THREE_LETTER_NAMES = [n for n in ["ALA", "CYS", "ASP", "PHE", "GLY", "HIS", "ILE", "LYS", "MET", "ASN", "ARG", "SER", "THR", "VAL", "TRP", "TYR"] if all(c in AA for c in n)]
+
+
+def name_concatenations(min_names=1, max_names=12):
+    """Legal one-letter sequences that happen to read as concatenated three-letter residue names (ALASERMET ...)."""
+    return st.lists(st.sampled_from(THREE_LETTER_NAMES), min_size=min_names, max_size=max_names).map("".join)
